@@ -50,9 +50,9 @@ def handleC20 : Handler := fun args =>
         | ps => "race " ++ " ".intercalate (ps.map fun p => s!"{p.1}-{p.2}")
   | "race-scenario" :: _ => "clean"
   | ["sites-nonconforming"] =>
-    listOrNone ((RacePolicy.nonconforming.filter fun a => !RacePolicy.exceptions.contains (RacePolicy.siteOf a)).map showSite)
+    listOrNone ((RacePolicy.nonconforming.filter fun a => !RacePolicy.isException a).map showSite)
   | ["sites-exceptions"] =>
-    listOrNone ((Gen.accesses.filter fun a => RacePolicy.exceptions.contains (RacePolicy.siteOf a)).map showSite)
+    listOrNone ((Gen.accesses.filter fun a => RacePolicy.isException a).map showSite)
   | ["calls-nonconforming"] =>
     listOrNone (RacePolicy.nonconformingCalls.map fun c => s!"{c.callee}@{c.func}@{c.pos}@{c.mode}@[{",".intercalate c.held}]")
   | _ => none
